@@ -175,10 +175,14 @@ class C13(Check):
                 n_off = 1 if oname == "none" else len(OFFSET_SETS[oname])
                 for j in range(n_off):
                     out.append(("roundtrip", ps, oname, j))
+                # one call per centre (the batched calls above hide anything that depends on the SET of centres)
+                for order in (0, 1):
+                    for mode in ("constant", "nearest"):
+                        out.append(("extract-single", ps, oname, order, mode))
         return out
 
     def is_query(self, op):
-        return op[0] in ("extract", "extract-list", "extract-frac", "roundtrip")
+        return op[0] in ("extract", "extract-list", "extract-frac", "roundtrip", "extract-single")
 
     # ------------------------------------------------------------------ transitions
     def apply(self, st, op, verify=True):
@@ -433,6 +437,48 @@ class C13(Check):
         self.note("extract-frac:points-checked", n_checked)
         return []
 
+    def _apply_extract_single(self, st, op, verify):
+        """every integer centre in its own call, order 0/1 x mode constant/nearest: at integer centres and offsets all
+        sample points are integer pixels, so every path must return exactly the (clamped / filled) source pixels"""
+        from menpo.shape import PointCloud
+
+        _, ps, oname, order, mode = op
+        px = st["ref_px"]
+        if px.dtype == bool and order == 1:
+            return []
+        C, H, W = px.shape
+        offs = OFFSET_SETS[oname]
+        offs_a = None if offs is None else np.array(offs)
+        O = np.zeros((1, 2)) if offs is None else np.asarray(offs, dtype=float)
+        img = st["img"]
+        self.note("extract-single:o%d-%s" % (order, mode))
+        lo_r = -(ps[0] // 2)
+        lo_c = -(ps[1] // 2)
+        for c in self._centres(st):
+            got = img.extract_patches(PointCloud(c[None, :].copy()), patch_shape=ps, sample_offsets=offs_a, order=order, mode=mode)
+            if not verify:
+                continue
+            if got.shape != (1, len(O), C, ps[0], ps[1]):
+                return [Failure("extract-single", "shape", "centre %s patch=%s: got %s" % (c.tolist(), ps, got.shape))]
+            for oi, o in enumerate(O):
+                ys = (int(c[0] + o[0]) + lo_r + np.arange(ps[0]))
+                xs = (int(c[1] + o[1]) + lo_c + np.arange(ps[1]))
+                if mode == "nearest":
+                    ref = px[:, np.clip(ys, 0, H - 1)][:, :, np.clip(xs, 0, W - 1)]
+                else:
+                    ref = np.zeros((C, ps[0], ps[1]), dtype=px.dtype)
+                    iy = (ys >= 0) & (ys < H)
+                    ix = (xs >= 0) & (xs < W)
+                    sub = px[:, ys[iy]][:, :, xs[ix]]
+                    ref[np.ix_(np.arange(C), np.nonzero(iy)[0], np.nonzero(ix)[0])] = sub
+                g = got[0, oi]
+                ok = np.array_equal(g, ref) if (order == 0 or px.dtype.kind != "f") else np.abs(g.astype(float) - ref.astype(float)).max() <= 1e-9 * max(1.0, float(np.abs(ref).max()))
+                if px.dtype == np.uint8 and order == 1:
+                    ok = np.abs(g.astype(int) - ref.astype(int)).max() <= 1
+                if not ok:
+                    return [Failure("extract-single", "pixels", "order %d mode %s patch=%s offsets=%s channels=%d: single centre %s offset %s differs from the %s source pixels" % (order, mode, ps, oname, C, c.tolist(), o.tolist(), "clamped" if mode == "nearest" else "zero-filled"))]
+        return []
+
     def _apply_roundtrip(self, st, op, verify):
         from menpo.shape import PointCloud
 
@@ -486,7 +532,7 @@ class C13(Check):
 
     # ------------------------------------------------------------------ reporting
     def vacuity(self, notes, stats):
-        need = ["crop:refused-expected", "crop:wholly-outside", "crop:inside", "crop:clipped", "crop_to_true_mask:inside", "extract:outside-filled", "extract:sample0-c1", "extract:sample0-c5", "extract:slice-c4", "roundtrip:c5", "extract-frac:points-checked"]
+        need = ["crop:refused-expected", "crop:wholly-outside", "crop:inside", "crop:clipped", "crop_to_true_mask:inside", "extract:outside-filled", "extract:sample0-c1", "extract:sample0-c5", "extract:slice-c4", "roundtrip:c5", "extract-frac:points-checked", "extract-single:o0-nearest", "extract-single:o1-constant"]
         if True:
             need += ["crop_to_true_mask:refused-expected", "crop_to_true_mask:clipped"]
         return ["outcome %s never produced" % n for n in need if not notes.get(n)]
